@@ -51,9 +51,42 @@ def sig_hetero_trunc_degenerate(f):
     return flat.size > 0 and bool(np.all(~np.isfinite(flat)))
 
 
+def sig_hetero_trunc_far_tail(f):
+    """step / rectified-linear classes when the event h >= 0 is far in the tail of h under p(x) (more than 20 standard
+    deviations, P(h >= 0) < 1e-88): the truncated moments are 0 * inf and the result is NaN.  Only NaN results in that
+    regime match; a finite wrong value, another class or a nearer truncation point does not."""
+    p = f.get("params", {})
+    if p.get("cls") not in ("heaviside", "relu"):
+        return False
+    vals = [f.get("got"), f.get("expected"), f.get("deviation")] + list((p.get("gaps") or {}).values())
+    flat = []
+    for v in vals:
+        if v is None:
+            continue
+        try:
+            flat.extend(np.asarray(v, dtype=float).reshape(-1).tolist())
+        except Exception:
+            pass
+    if not any(np.isnan(x) for x in flat):
+        return False
+    try:
+        W = np.asarray(p["W"], dtype=float); S = np.asarray(p["Sigma_x"], dtype=float); mu = np.asarray(p["mu_x"], dtype=float)
+        S = S.reshape((-1,) + S.shape[-2:]); mu = mu.reshape(-1, mu.shape[-1])
+        for k in range(W.shape[0]):
+            w0, w = W[k, 0], W[k, 1:]
+            for n in range(S.shape[0]):
+                sd = float(np.sqrt(w @ S[n] @ w))
+                if sd > 0 and -(w0 + w @ mu[n]) / sd > 20.0:
+                    return True
+    except Exception:
+        return False
+    return False
+
+
 SIGNATURES = {
     "hetero-woodbury-Da>Dy": (("hetero-woodbury-Da>Dy",), sig_hetero_woodbury),
     "hetero-trunc-degenerate": (("hetero-trunc-degenerate",), sig_hetero_trunc_degenerate),
+    "hetero-trunc-far-tail": (("integrate_log_conditional_y",), sig_hetero_trunc_far_tail),
     "set_y-normaliser-uses-Dx": (("set_y",), sig_set_y_normaliser),
     "evidence-offset-from-set_y": (("set_y", "evidence"), sig_evidence_offset),
 }
